@@ -38,10 +38,37 @@ diamonds and sharing, back / self references and repeats in the saved lists, a s
 with a declared calc_dep of its own, values that change between two executions, a forgotten / ignored link.  The first three
 scripted shapes run on the three backends (quick), all of them in the thorough tier.
 
+The FILES of the DB (file-level frame; implementation side only -- the model and the frame theorems of Properties/C20.v speak about
+the logical DB in memory and "on disk" ([persisted]), not about files, bytes or mtimes).  Around EVERY read-only command of every
+history, probe, Ask, Frame step and clean-list world, on every backend: every file in the directory of the DB (json: the one file;
+dbm = dbm.dumb here: .dat / .dir / .bak; sqlite3: the file and, during a transaction, its -journal) is given a known old mtime
+(os.utime) and snapshotted (name, size, st_mtime_ns, sha1) just before the command; after it -- and after what the end of the
+process does to the DB object (dropped, never closed: end_of_process) -- the set of files, their bytes and their mtimes must be what
+they were: no file created when there was none, nothing re-written (shape readonly-db-file-touched).  What the unchanged code does for
+the documented exception, and so the only thing accepted (file_frame): get_status removes the record of a task saved by another
+checker; DbmDB.remove writes that through at once (`del self._dbm[task_id]`: dbm.dumb re-writes .dir / .bak, .dat stays), JsonDB
+keeps it in memory and SqliteDB in a transaction that is never committed -- on json and sqlite3 the files stay byte-identical in
+that case too.  (The snapshot of the logical DB taken before the command opens a fresh Dependency: DbmDB / SqliteDB create their
+empty files when there are none, JsonDB does not -- "no file created when there was none" is observed on the json backend.)
+Step `Frame` (file_frame_scripted: every seed, the three backends; no DB at all / after a run / after ignore + checker switch)
+executes a FIXED list with every kind of read-only command (list with and without -s / --deps / --all, info, clean --dry-run,
+help TASK, tabcompletion, dumpdb) between these snapshots, without the model.
+KNOWN finding (shape dryrun-clean-rewrites-json-db, stays printed): `clean --dry-run` ends with dep_manager.close()
+(cmd_clean.py:65) -- on the json backend the file is created / re-written / a concurrent run's state overwritten.
+
+A run of ANOTHER PROCESS while a read-only command is in progress (class Interleave, interleave_scenarios: systematic, every seed,
+json backend -- the whole file is read when the command opens the DB): tasks V and W; the task-creator of W (called after the
+command opened the DB), or an uptodate callable of V that `list -s` / `info V` evaluates, runs a complete `python -m doit run W`
+in a sub-process against the same DB file.  After the command returned the DB file must be, byte for byte, what the sub-process
+left and the next `doit run W` must find W up-to-date (shape readonly-overwrote-concurrent-run).  Prior states: no DB file / only V
+saved / W saved and its file_dep modified since.  Commands: list [-s] [--deps --all -p], info [--no-status], help TASK,
+tabcompletion --hardcode-tasks, clean -n (the known finding above).
+
 Independent oracles (out.violations; no use of the model):
   * no task action and no clean action without a `dryrun` parameter ran; file tree identical;
     logical DB content identical -- or identical minus tasks whose stored 'checker:' differs from the
     configured checker (the documented invalidation), that do NOT carry the ignore mark, and that the command was asked about;
+    the files of the DB identical (set, bytes, mtimes; see above); the state saved by a concurrent run still there;
   * for every task whose dependencies (task_dep, setup, calc_dep) were all skipped up-to-date by the
     run: letter of `list -s` == verdict of `info` == what the run did (R executed, U skipped
     up-to-date, I skipped ignored, E DependencyError while checking);
@@ -140,6 +167,9 @@ PRE = ('From DoitV Require Import Base Status History Introspect.\nFrom DoitV Re
        'Definition CW (fs : cfs) (d : db) : cworld := {| c_fs := fs; c_db := d; c_ev := [] |}.\n'
        'Definition DRY (ops : list fop) : cact := CPyDry (fun d : bool => if d then [] else ops).\n'
        'Definition SN (n : N) : Clean.sel N := Clean.SName n.\nDefinition SP (p : N) : Clean.sel N := Clean.SPat p.\n')
+
+OLD_NS = (BASE - 10 ** 6) * 10 ** 9      # the mtime every DB file is given just before a read-only command (file-level frame)
+KNOWN_DRYRUN_CLOSE = 'dryrun-clean-rewrites-json-db'
 
 RAN = []          # names of tasks whose (instrumented) action ran
 CLEANED = []      # (task, kind, dryrun) of clean actions that ran
@@ -245,6 +275,80 @@ class CleanTrace:
     def __exit__(self, *a):
         sys.setprofile(None)
         return False
+
+
+# ------------------------------------------------------------------ the files of the DB around a read-only command
+def _no_conv(data):
+    return data
+
+
+def end_of_process(backend):
+    """What the end of the doit process does to the DB object: it is dropped without close().  SqliteDB registers a converter
+    closure (holding the SqliteDB, so its connection) in the sqlite3 module: in-process the connection of the previous command
+    would stay open -- with its uncommitted transaction and the -journal file -- until the next SqliteDB is created."""
+    if backend == 'sqlite':
+        import sqlite3
+        sqlite3.register_converter('json', _no_conv)
+    gc.collect()
+
+
+def cache_entry_points():
+    """Every doit command object asks importlib.metadata.entry_points(group=...) for plugins (doit/plugin.py 100-109): a scan of the
+    metadata of every installed distribution, ~18 ms per command, more than everything else a read-only command does.  The set of
+    installed distributions does not change during a check: the answers are memoised per group (an environment oracle, not doit code)."""
+    import importlib.metadata as M
+    if getattr(M.entry_points, '_c20_memo', None) is not None:
+        return
+    real, memo = M.entry_points, {}
+
+    def entry_points(**params):
+        k = tuple(sorted(params.items()))
+        if k not in memo:
+            memo[k] = real(**params)
+        return memo[k]
+    entry_points._c20_memo = memo
+    M.entry_points = entry_points
+
+
+def dbfile_changes(before, after):
+    """[(file, 'created' | 'removed' | 'content changed' | 're-written (same bytes, new mtime)')]"""
+    res = []
+    for f in sorted(set(before) | set(after)):
+        a, b = before.get(f), after.get(f)
+        if a == b:
+            continue
+        if a is None:
+            res.append((f, 'created (%d bytes)' % b[0]))
+        elif b is None:
+            res.append((f, 'removed'))
+        elif a[2] != b[2]:
+            res.append((f, 'content changed'))
+        else:
+            res.append((f, 're-written (same bytes, new mtime)'))
+    return res
+
+
+def file_frame(out, backend, label, is_dry_clean, before, after, documented_removal):
+    """File-level frame of a read-only command: the set of files of the DB, their bytes and their mtimes are what they were.
+    What the unchanged code does, and so the only thing accepted: the dbm backend writes the documented invalidation (record of
+    a task saved by another checker, removed by get_status) through at once (`del self._dbm[task_id]`: dbm.dumb re-writes
+    .dir / .bak); json keeps it in memory and sqlite3 in a transaction that is never committed -- their files stay as they are.
+    -> None | (shape, sentence)"""
+    ch = dbfile_changes(before, after)
+    if not ch:
+        out.count('db-files-identical:%s%s' % (backend, '' if before else ':no-db-file'))
+        return None
+    if backend == 'dbm' and documented_removal and all(f in after for f in before):
+        out.count('db-files-written-through-checker-change:dbm')
+        return None
+    what = '`%s` touched the files of the dependency DB (%s backend%s): %s' % (
+        label, backend, '' if before else ', no DB file before', ', '.join('%s %s' % c for c in ch))
+    if backend == 'json' and is_dry_clean:
+        # Clean.clean_tasks ends with dep_manager.close() also on a dry-run: JsonDB.dump re-writes the whole file
+        return KNOWN_DRYRUN_CLOSE, what + ' -- Clean.clean_tasks calls dep_manager.close() on a dry-run too, JsonDB.dump writes the snapshot read at start'
+    if backend == 'sqlite' and documented_removal:
+        what += ' (the removal of a record saved by another checker is left uncommitted by the unchanged code)'
+    return 'readonly-db-file-touched', what
 
 
 # ------------------------------------------------------------------ the world: one history on one backend
@@ -446,8 +550,26 @@ class World:
             os.chdir(cwd)
             sys.stdout, sys.stderr = real
             Globals.dep_manager = None     # what the end of the process does: the DB object is dropped, never closed
-            gc.collect()
+            end_of_process(self.backend)
         return rc, buf.getvalue(), list(RecReporter.log)
+
+    # ---- the FILES of the DB (file-level frame)
+    def dbfiles(self):
+        """{file name: (size, mtime_ns, sha1)} of everything in the directory that holds the DB: json the one file; dbm (dbm.dumb
+        here) .dat / .dir / .bak; sqlite3 the file and, while a transaction is open, its -journal"""
+        snap = {}
+        for f in sorted(os.listdir(self.dbdir)):
+            p = os.path.join(self.dbdir, f)
+            st = os.stat(p)
+            with open(p, 'rb') as fh:
+                snap[f] = (st.st_size, st.st_mtime_ns, hashlib.sha1(fh.read()).hexdigest())
+        return snap
+
+    def age_dbfiles(self):
+        """every DB file gets a known old mtime: a command that re-writes a file with the same bytes is still seen"""
+        for f in os.listdir(self.dbdir):
+            os.utime(os.path.join(self.dbdir, f), ns=(OLD_NS, OLD_NS))
+        return self.dbfiles()
 
     # ---- snapshots
     def open_dep(self):
@@ -904,6 +1026,7 @@ class Runner:
         self.cases = []
         self.ncmd = 0
         self.last_attrs, self.must = None, []
+        self.with_model = True             # step Frame switches the correspondence cases off (file-level family: oracles only)
 
     def case_desc(self, extra):
         return dict(backend=self.backend, shape=self.shape, history=self.history, **extra)
@@ -918,14 +1041,17 @@ class Runner:
         tasks = None
         if args[0] in ('list', 'info'):
             tasks = w.loaded()
-            st = State(w, recs0, tasks)
+            st = State(w, recs0, tasks) if self.with_model else None
         del RAN[:]
         del CLEANED[:]
+        dbf0 = w.age_dbfiles()             # (after db_records: a fresh Dependency creates the dbm / sqlite3 files when there are none)
         rc, txt, _ = w.doit(args, trace=(args[0] == 'clean'))
+        dbf1 = w.dbfiles()
         self.ncmd += 1
         out.count('cmd:' + ' '.join(a for a in args[:1]))
         recs1, fs1 = w.db_records(), w.fs_snapshot()
         label = ' '.join(a if not a.startswith(w.dir) else '<dep_file>' for a in args)
+        documented_removal = False
         # --- oracles
         if RAN:
             self.violation('`%s` executed task actions %s' % (label, RAN), 'readonly-executed-action', dict(cmd=label))
@@ -957,6 +1083,7 @@ class Runner:
             lost_marks = sorted(n for n, r in recs0.items() if r.get('ignore:') and not (recs1.get(n) or {}).get('ignore:'))
             if ok:
                 out.count('db-invalidated-by-checker-change')
+                documented_removal = True
             elif allowed and lost_marks:
                 self.violation('`%s` removed the ignore mark of %s from the dependency DB (%s backend): the next `run` executes a task the user '
                                'asked to ignore' % (label, lost_marks, w.backend),
@@ -964,8 +1091,14 @@ class Runner:
             else:
                 self.violation('`%s` altered the dependency DB (beyond the documented checker-change invalidation)' % label,
                                'readonly-altered-db', dict(cmd=label, before=sorted(recs0), after=sorted(recs1)))
+        # the FILES of the DB: same set, same bytes, same mtimes (implementation side only: the model has no files)
+        ff = file_frame(out, w.backend, label, args[0] == 'clean', dbf0, dbf1, documented_removal)
+        if ff:
+            self.violation(ff[1], ff[0], dict(cmd=label, db_files_before=sorted(dbf0), db_files_after=sorted(dbf1)))
         if args[0] in ('list', 'info') and any(r.get('ignore:') and r.get('checker:') and r.get('checker:') != CK_NAME[w.ck] for r in recs0.values()):
             out.count('query-with-ignored-record-of-other-checker:' + args[0])
+        if not self.with_model:
+            return rc, txt, None, recs0, tasks
         # --- correspondence
         parsed = None
         if args[0] == 'list':
@@ -1055,6 +1188,31 @@ class Runner:
             self.ask_info(tasks, t, got)
         rc, txt, lst, _, _ = self.readonly(['list', '-s', '--all', '-p'])
         return self.run_and_compare(tasks, got, self.letters_of(lst), None)
+
+    def frame(self):
+        """step Frame: EVERY kind of read-only command, a fixed list (no random choice: the replay executes the same commands), each
+        between the two snapshots of `readonly` -- logical DB, file tree, and the FILES of the DB (set, bytes, mtimes); no model"""
+        w = self.w
+        present = [t.name for t in w.loaded()]
+        v = [['list'], ['list', '-s'], ['list', '--all'], ['list', '--deps'], ['list', '-s', '--all', '-p', '--deps'], ['list', '-s', 'T0'],
+             ['info', 'T0'], ['info', 'T1'], ['info', '--no-status', 'T2'],
+             ['clean', '-n'], ['clean', '--dry-run', '-c', 'T0'], ['clean', '-n', '--forget', '-a'],
+             ['help', 'T0'], ['tabcompletion', '-s', 'zsh', '--hardcode-tasks']]
+        if not self.ctx.quick:
+            v += [['clean', '-n', '-a'], ['help'], ['help', 'list'], ['tabcompletion', '-s', 'bash']]
+        if 'G' in present:
+            v += [['list', '-s', '--all', 'G'], ['info', 'G:a']]
+        if w.backend == 'dbm':
+            v.append(['dumpdb', '--db-file', w.dbpath])
+        self.with_model = False
+        try:
+            self.nframe = getattr(self, 'nframe', 0) + 1
+            for args in v:
+                self.readonly(args)
+                self.out.count('frame-step-command:%s' % w.backend)
+                self.out.nontrivial.add(('frame', w.backend, self.nframe, ' '.join(args[:1] + [a for a in args[1:] if not a.startswith(w.dir)])))
+        finally:
+            self.with_model = True
 
     def ask_info(self, tasks, t, got, extra=()):
         """`info T` with its verdict, its reasons, the facts at that moment and the records the verdict depends on"""
@@ -1256,6 +1414,8 @@ class Runner:
                 self.probe(step[1])
             elif k == 'Ask':
                 self.ask(list(step[1]))
+            elif k == 'Frame':
+                self.frame()
             else:
                 raise ValueError(step)
         return self.cases
@@ -1547,7 +1707,9 @@ class CleanRunner:
         recs0, fs0, ex0 = w.db_records(), w.fs_snapshot(), w.existing()
         del RAN[:]
         del CLEANED[:]
+        dbf0 = w.age_dbfiles()
         rc, txt, _ = w.doit(args, trace=True)
+        dbf1 = w.dbfiles()
         trace = list(TRACE)
         self.ncmd += 1
         out.count('cmd:clean-lists:' + ('dry-run' if o['dry'] else 'real'))
@@ -1578,6 +1740,9 @@ class CleanRunner:
                                'cleanlist-dryrun-altered-fs', dict(cmd=label))
             if recs1 != recs0:
                 self.violation('`%s` altered the dependency DB' % label, 'cleanlist-dryrun-altered-db', dict(cmd=label, before=sorted(recs0), after=sorted(recs1)))
+            ff = file_frame(out, w.backend, label, True, dbf0, dbf1, False)
+            if ff:
+                self.violation(ff[1], ff[0], dict(cmd=label, db_files_before=sorted(dbf0), db_files_after=sorted(dbf1)))
         # ---- correspondence
         obs = clean_observation(w, rc, txt, trace)
         if obs[0] == 0:
@@ -1863,6 +2028,190 @@ def ignore_switch_tail(rng, names, ck, group):
     return ([('Run', [], [])] if rng.random() < 0.7 else []) + [('Ignore', n), ('SetChecker', 'ts' if ck == 'md5' else 'md5'), ('Ask', q)]
 
 
+def file_frame_scripted():
+    """the file-level frame, every seed, the three backends: every kind of read-only command (step Frame) when there is no DB
+    at all, after a run (some tasks up-to-date, some not), and after a checker switch with an ignore mark (the documented
+    invalidation: written through by dbm only)"""
+    T = ('bool', True)
+    W = [('Write', f, f) for f in range(5)]
+    h = W + [('SetDef', 0, D([0, 1], True)), ('SetDef', 1, D([2], utd=[('run_once',)])), ('SetDef', 2, D([0], utd=[T])),
+             ('Frame',), ('Run', [], []), ('Write', 2, 0), ('Frame',),
+             ('Ignore', 'T2'), ('SetChecker', 'ts'), ('Frame',)]
+    return [(dict(group=True, private=True), h)]
+
+
+# ------------------------------------------------------------------ a run of another process while a read-only command is in progress
+OTHER_DODO = """import os
+DOIT_CONFIG = {'backend': %(backend)r, 'dep_file': %(db)r, 'verbosity': 0, 'check_file_uptodate': 'md5'}
+
+def _executed(name):
+    with open(%(log)r, 'a') as fh:
+        fh.write(name + '\\n')
+
+def task_V():
+    return {'actions': [(_executed, ['V'])], 'file_dep': [%(dv)r]}
+
+def task_W():
+    return {'actions': [(_executed, ['W'])], 'file_dep': [%(dw)r]}
+"""
+
+
+class Interleave:
+    """json backend (the whole file is read when the command starts): tasks V and W, one file dependency each.  While the
+    read-only command `cmd` is in progress -- after it opened the DB: task-creators are called after that -- a COMPLETE
+    `doit run W` of another process (a sub-process: python -m doit run -f other_dodo.py W, same DB file) takes place,
+    started either by the task-creator of W when it is first called (trigger 'creator') or by an uptodate callable of V that
+    `list -s` / `info V` evaluates (trigger 'uptodate').  When the command has returned, what that run saved must still be in
+    the DB file (byte for byte what the sub-process left) and the next `doit run W` must find W up-to-date.
+        prior: 'nodb' no DB file at all | 'other' V saved by an earlier run, W never ran | 'stale' both saved, then the
+        dependency of W modified (the concurrent run executes W again and saves the new state)"""
+    def __init__(self, ctx, out, sc):
+        self.ctx, self.out, self.sc = ctx, out, sc
+        self.backend = sc.get('backend', 'json')
+        d = self.dir = ctx.subdir('c20il')
+        for f in os.listdir(d):
+            p = os.path.join(d, f)
+            shutil.rmtree(p) if os.path.isdir(p) else os.remove(p)
+        self.dbdir = os.path.join(d, '_db')
+        os.makedirs(self.dbdir)
+        self.dbpath = os.path.join(self.dbdir, 'deps.' + self.backend)
+        self.log, self.dv, self.dw = os.path.join(d, 'log'), os.path.join(d, 'dv'), os.path.join(d, 'dw')
+        self.dodo = os.path.join(d, 'other_dodo.py')
+        self.armed = False
+        self.sub = None                    # (return code, output, DB file bytes right after the sub-process)
+        self.ncmd = 0
+
+    def executed(self):
+        if not os.path.exists(self.log):
+            return []
+        with open(self.log) as fh:
+            return fh.read().split()
+
+    def other_process(self):
+        """a complete `doit run W` of another process"""
+        import subprocess, doit
+        self.armed = False
+        repo = os.path.dirname(os.path.dirname(os.path.abspath(doit.__file__)))
+        env = dict(os.environ, PYTHONPATH=repo, PYTHONHASHSEED='0', PYTHONDONTWRITEBYTECODE='1')
+        p = subprocess.run([sys.executable, '-m', 'doit', 'run', '-f', self.dodo, 'W'], cwd=self.dir, env=env,
+                           stdout=subprocess.PIPE, stderr=subprocess.STDOUT, universal_newlines=True, timeout=120)
+        self.sub = (p.returncode, p.stdout[-400:], self.dbbytes())
+
+    def dbbytes(self):
+        if not os.path.exists(self.dbpath):
+            return None
+        with open(self.dbpath, 'rb') as fh:
+            return fh.read()
+
+    def namespace(self):
+        s = self
+
+        def act(name):
+            def a():
+                with open(s.log, 'a') as fh:
+                    fh.write(name + '\n')
+            return a
+
+        def utd():
+            if s.armed and s.sc['trigger'] == 'uptodate':
+                s.other_process()
+            return True
+
+        def task_V():
+            return {'actions': [act('V')], 'file_dep': [s.dv], 'uptodate': [utd]}
+
+        def task_W():
+            if s.armed and s.sc['trigger'] == 'creator':
+                s.other_process()
+            return {'actions': [act('W')], 'file_dep': [s.dw], 'clean': True}
+        return {'DOIT_CONFIG': {'dep_file': s.dbpath, 'backend': BACKEND_OPT[s.backend], 'check_file_uptodate': 'md5',
+                                'reporter': RecReporter, 'verbosity': 0},
+                'task_V': task_V, 'task_W': task_W}
+
+    def doit(self, args):
+        from doit.doit_cmd import DoitMain
+        from doit.cmd_base import ModuleTaskLoader
+        from doit.globals import Globals
+        RecReporter.log = []
+        buf = io.StringIO()
+        real = (sys.stdout, sys.stderr)
+        cwd = os.getcwd()
+        os.chdir(self.dir)
+        try:
+            with contextlib.redirect_stdout(buf), contextlib.redirect_stderr(buf):
+                try:
+                    rc = DoitMain(ModuleTaskLoader(self.namespace())).run(args)
+                except SystemExit:
+                    rc = 90
+                except BaseException as e:  # noqa
+                    rc = 91
+                    buf.write('ESCAPED %s' % type(e).__name__)
+        finally:
+            os.chdir(cwd)
+            sys.stdout, sys.stderr = real
+            Globals.dep_manager = None
+            end_of_process(self.backend)
+        self.ncmd += 1
+        return rc, buf.getvalue(), list(RecReporter.log)
+
+    def run(self):
+        sc, out = self.sc, self.out
+        label = ' '.join(sc['cmd'])
+        for p, c in ((self.dv, b'v1'), (self.dw, b'w1')):
+            with open(p, 'wb') as fh:
+                fh.write(c)
+        with open(self.dodo, 'w') as fh:
+            fh.write(OTHER_DODO % dict(backend=BACKEND_OPT[self.backend], db=self.dbpath, log=self.log, dv=self.dv, dw=self.dw))
+        if sc['prior'] == 'other':
+            self.doit(['run', 'V'])
+        elif sc['prior'] == 'stale':
+            self.doit(['run'])
+            with open(self.dw, 'wb') as fh:
+                fh.write(b'w2 modified')
+        n0 = self.executed().count('W')
+        self.armed = True
+        rc, txt, _ = self.doit(list(sc['cmd']))
+        out.count('interleave:%s:%s:%s' % (sc['trigger'], sc['prior'], sc['cmd'][0]))
+        after = self.dbbytes()
+        if self.sub is None or self.sub[0] != 0 or self.executed().count('W') != n0 + 1 or self.sub[2] is None or b'"W"' not in self.sub[2]:
+            # the scenario did not take place (the command never called the trigger, or the other process failed): a harness problem
+            raise RuntimeError('interleaving scenario %s did not take place: rc=%s sub=%r out=%r' % (sc, rc, self.sub and self.sub[:2], txt[-300:]))
+        rc2, txt2, log2 = self.doit(['run', 'W'])
+        again = self.executed().count('W') - (n0 + 1)
+        kept = after == self.sub[2]
+        if not kept or again or ('uptodate', 'W', None) not in log2:
+            try:
+                names = sorted(json.loads(after.decode())) if after is not None else None
+            except ValueError:
+                names = 'not json'
+            what = ('`%s` was in progress (json backend, %s) while a complete `doit run W` of another process executed W and saved it in the DB file; when `%s` '
+                    'had returned the DB file %s (task ids in it: %s) and the next `doit run W` %s: the read-only command wrote its stale picture of the DB over '
+                    'the state saved by the run' % (
+                        label, {'nodb': 'no DB file before', 'other': 'only V saved before', 'stale': 'W saved before, its file_dep modified since'}[sc['prior']], label,
+                        'was what the run had left' if kept else ('was gone' if after is None else 'was NOT what the run had left'), names,
+                        'executed W AGAIN' if again else 'found W up-to-date'))
+            shape = KNOWN_DRYRUN_CLOSE if sc['cmd'][0] == 'clean' else 'readonly-overwrote-concurrent-run'
+            out.violations.append(dict(what=what, shape=shape, case=dict(kind='interleave', backend=self.backend, scenario=sc)))
+        else:
+            out.count('interleave-state-of-concurrent-run-kept')
+
+
+def interleave_scenarios(quick):
+    """systematic, every seed: each read-only command that loads the tasks x the trigger it can reach x the three prior states
+    (quick tier: the three prior states for the first two, one of them -- in rotation -- for the others)"""
+    scs = []
+    for i, (cmd, trig) in enumerate(((['list', '-s'], 'creator'), (['list', '-s'], 'uptodate'), (['list', '-s', '--all', '-p', '--deps'], 'uptodate'),
+                      (['info', 'V'], 'uptodate'), (['info', 'W'], 'creator'), (['list'], 'creator'), (['list', '--deps', '--all'], 'creator'),
+                      (['info', '--no-status', 'W'], 'creator'), (['help', 'W'], 'creator'), (['tabcompletion', '-s', 'bash', '--hardcode-tasks'], 'creator'),
+                      (['clean', '-n'], 'creator'), (['clean', '--dry-run', '-a', 'W'], 'creator'))):
+        priors = ('nodb', 'other', 'stale')
+        if quick and i in (6, 11):
+            continue
+        for prior in (priors if (i < 2 or not quick) else (priors[i % 3],)):
+            scs.append(dict(cmd=cmd, trigger=trig, prior=prior, backend='json'))
+    return scs
+
+
 # ------------------------------------------------------------------ chains / trees of calc_dep tasks
 def KT(vals, fd=(4,), calc=()):
     """a calc task: its action returns `vals` (file numbers under 'file_dep', task names under 'calc_dep' / 'task_dep')"""
@@ -1980,7 +2329,10 @@ RULE = ('scripted histories (calc_dep, missing file_dep with changed dep / false
         'least one successful run of the history.  clean --dry-run: worlds of up to 9 tasks whose clean lists enumerate every sequence over '
         '{clean_targets, python callable with dryrun, python callable without, shell command} up to length 3 (thorough 4) plus random longer ones, '
         'with task_dep / setup edges, a group, default_tasks; after a real run, `clean -n` with every combination of -c -a --forget and '
-        'positional selections, then one real clean and a dry-run after it; every command is a non-trivial case')
+        'positional selections, then one real clean and a dry-run after it; every command is a non-trivial case.  File-level frame around every read-only command '
+        '(DB files: same set, bytes, mtimes) + step Frame (fixed list of every kind of read-only command; no DB / after a run / after ignore + checker switch; three backends, every seed) '
+        '+ interleaving scenarios (json: a complete `doit run W` of a sub-process started by a task-creator / an uptodate callable while list / info / help / tabcompletion / clean -n is in progress; '
+        'three prior states; every scenario is a non-trivial case)')
 
 
 def run(ctx):
@@ -1991,6 +2343,7 @@ def run(ctx):
     if not ok:
         raise RuntimeError('cannot build Model/Introspect.vo: ' + log[-1500:])
     rng = ctx.rng
+    cache_entry_points()
     hs = [('scripted', s, h) for s, h in scripted()]
     hs += [('ignore-switch', s, h) for s, h in ignore_switch_scripted()]      # (before the random ones: the shortest history is the replay)
     for i in range(ctx.n(7, 80)):
@@ -2001,6 +2354,7 @@ def run(ctx):
     for i in range(ctx.n(4, 60)):
         s, h = gen_chain_history(rng, rng.randrange(2, ctx.n(5, 9)))
         hs.append(('chain-random', s, h))
+    hs += [('file-frame', s, h) for s, h in file_frame_scripted()]      # (last: the backends of the histories above stay what they were)
     cases = []
     backends = ('json', 'dbm', 'sqlite')
     t0 = time.time()
@@ -2010,7 +2364,7 @@ def run(ctx):
             todo = ('dbm', backends[hi % 3]) if backends[hi % 3] != 'dbm' else ('dbm', 'json')
         if kind == 'chain-scripted' and (hi - n_chain0 < 3 or not ctx.quick):
             todo = backends                  # the chain / diamond shapes on every backend
-        if kind == 'ignore-switch':
+        if kind in ('ignore-switch', 'file-frame'):
             todo = backends                  # ignore mark + checker switch + one status query: every backend, every seed
         for b in todo:
             r = Runner(ctx, out, b, h, shape, kind)
@@ -2031,6 +2385,19 @@ def run(ctx):
                     out.nontrivial.add((hi, b, c['desc'].get('cmd'), len(cases)))
                 cases.append(c)
             out.evaluations += r.ncmd
+    # a complete run of another process while a read-only command is in progress (json backend)
+    t_il = time.time()
+    for sc in interleave_scenarios(ctx.quick):
+        il = Interleave(ctx, out, sc)
+        try:
+            il.run()
+        except Exception as e:  # noqa
+            import traceback
+            cases.append(dict(model='[0]', expected=[97, len(type(e).__name__)], desc=dict(error=traceback.format_exc()[-900:], kind='interleave', scenario=sc)))
+        out.nontrivial.add(('interleave', json.dumps(sc, sort_keys=True)))
+        out.evaluations += il.ncmd
+    out.extra['interleave_scenarios'] = len(interleave_scenarios(ctx.quick))
+    out.extra['interleave_seconds'] = round(time.time() - t_il, 1)
     # clean --dry-run over clean lists
     t1 = time.time()
     specs = clean_worlds(ctx)
@@ -2068,15 +2435,33 @@ def run(ctx):
     out.assumptions = ['calc_dep: the values a calc task saved contribute file_dep, calc_dep (to any depth) and task_dep; an `uptodate` key in such values, `*` patterns in a contributed '
                        'task_dep and the implicit task_dep `run` adds when a contributed file_dep is the target of another task are not modelled and not generated; the letters / verdicts '
                        'are compared with the run only for tasks whose dependencies (as the run ended up seeing them) were all skipped up-to-date',
-                       'interpretation fixed in DESIGN C20: creating an empty DB file where none existed is not an alteration; only logical DB content and non-DB files are compared',
+                       'file-level frame (set of DB files, bytes, mtimes; state of a concurrent run kept) is implementation-side only: the model and the frame theorems speak about the logical DB in memory and on disk '
+                       '([persisted]: dbm writes the documented invalidation through, json / sqlite3 do not), not about files.  DbmDB / SqliteDB create their empty DB files when the DB is opened -- the harness opens it for its '
+                       'own snapshot before the command, so creation by the command is observed on the json backend only (DESIGN C20: an empty DB file where none existed is not an alteration of the logical DB); '
+                       'the dbm backend is dbm.dumb in this environment (no gdbm / ndbm module)',
                        'callables in uptodate are oracles (Some true / Some false / None); tools.run_once, config_changed (string form) and result_dep on a plain task are modelled',
                        'help, dumpdb and tabcompletion are tied by snapshots only (model: no transition); so are the clean --dry-run variants inside the list/info histories',
                        'clean lists: what a user-written clean action does to files is an oracle carried by the action; the instrumented callables with a `dryrun` parameter honour it (hypothesis `honest` of C20_clean_cmd_dryrun_frame); targets are regular files (directories: C14)',
                        'layout of the printed lines (--quiet, --template, column width, the attribute listing of info) is not modelled']
     out.extra['trusted_base'] = ['harness/c20.py: World (real commands in-process), snapshots, parsers of the printed text, State (Coq literals of the state read back), true_reasons (oracle)',
                                  'harness/c20.py: CleanTrace (sys.setprofile record of Task.clean / action.execute / clean_targets calls), CleanWorld (instrumented clean callables, shell commands), clean_observation',
+                                 'harness/c20.py: file_frame / World.dbfiles (os.stat + sha1 of the DB directory), end_of_process (drops the sqlite3 converter closure that keeps the previous connection open), Interleave (sub-process `python -m doit run`), '
+                                 'cache_entry_points (importlib.metadata.entry_points memoised per group for the duration of the check)',
                                  'md5 oracle = identity on content ids (the 5 byte strings used have distinct digests); name order oracle = Python sorted() on the task names']
     return out
+
+
+def replay_verdict(out, payload):
+    """exit code 1 iff the recorded violation (its shape) shows up again; violations of other shapes -- the KNOWN findings are
+    met by many histories -- are printed too, marked, and do not decide the exit code"""
+    want = payload.get('shape')
+    hit = [v for v in out.violations if want is None or v['shape'] == want]
+    for v in hit:
+        print('VIOLATION', v['shape'], v['what'])
+    for v in out.violations:
+        if v not in hit:
+            print('(other shape, does not count)', v['shape'], v['what'])
+    return 1 if hit else 0
 
 
 def replay(ctx, payload):
@@ -2085,13 +2470,12 @@ def replay(ctx, payload):
     if case.get('kind') == 'clean-lists':
         r = CleanRunner(ctx, out, case.get('backend', 'json'), case['spec'])
         r.run()
-        for v in out.violations:
-            print('VIOLATION', v['shape'], v['what'])
-        return 1 if out.violations else 0
+        return replay_verdict(out, payload)
+    if case.get('kind') == 'interleave':
+        Interleave(ctx, out, case['scenario']).run()
+        return replay_verdict(out, payload)
     h = [tuple(s) if not isinstance(s, tuple) else s for s in case.get('history', [])]
     h = [tuple(list(s[:2]) + [dict(s[2])] if s[0] == 'SetDef' else s) for s in h]
     r = Runner(ctx, out, case.get('backend', 'json'), h, case.get('shape', {}), 'replay')
     r.run()
-    for v in out.violations:
-        print('VIOLATION', v['shape'], v['what'])
-    return 1 if out.violations else 0
+    return replay_verdict(out, payload)
